@@ -93,10 +93,11 @@ class Check:
         per_rule = {}
         for i in insts:
             per_rule.setdefault(i.rule, {"ok": 0, "violation": 0, "undecided": 0, "info": 0})[i.status] += 1
+        vac = []
         for rid, r in self.rules.items():
             c = per_rule.get(rid, {"ok": 0, "violation": 0, "undecided": 0, "info": 0})
             if c["ok"] + c["violation"] < r["min_decided"]:
-                self.errors.append("rule %s decided %d instances, fewer than the %d confirmed on the pinned tree (anchor vanished or idiom no longer recognised)" % (rid, c["ok"] + c["violation"], r["min_decided"]))
+                vac.append("rule %s decided %d instances, fewer than the %d confirmed on the pinned tree (anchor vanished or idiom no longer recognised)" % (rid, c["ok"] + c["violation"], r["min_decided"]))
         lines = []
         for i in kn_viol:
             k = known_open[(i.rule, i.key)]
@@ -163,6 +164,13 @@ class Check:
         os.makedirs(EVIDENCE_DIR, exist_ok=True)
         with open(os.path.join(EVIDENCE_DIR, "%s.json" % self.pid), "w") as f:
             json.dump(ev, f, indent=1, default=str)
+        if vac and new_viol and not self.errors:
+            # a resolved conflict is a specific finding; the instances the edit made
+            # unresolvable elsewhere are reported but do not mask it
+            for e in vac:
+                print("NOTE: property=%s %s" % (self.pid, e))
+        else:
+            self.errors.extend(vac)
         if self.errors:
             for e in self.errors:
                 print("ANALYSIS-ERROR property=%s %s" % (self.pid, e))
